@@ -1,12 +1,14 @@
 pub trait Author: Clone + Ord {}
 pub trait LogId: Clone + Ord {}
 
+pub type Rng = (Option<SeqNum>, Option<SeqNum>);
+
 // height of (author, log) in a state vector, if known
 pub open spec fn hget<A, L>(m: Map<A, BTreeMap<L, SeqNum>>, a: A, l: L) -> Option<SeqNum> {
     if m.contains_key(a) && m[a]@.contains_key(l) { Some(m[a]@[l]) } else { None }
 }
 // range of (author, log) in a diff, if any
-pub open spec fn rget<A, L>(m: Map<A, BTreeMap<L, (Option<SeqNum>, Option<SeqNum>)>>, a: A, l: L) -> Option<(Option<SeqNum>, Option<SeqNum>)> {
+pub open spec fn rget<A, L>(m: Map<A, BTreeMap<L, Rng>>, a: A, l: L) -> Option<Rng> {
     if m.contains_key(a) && m[a]@.contains_key(l) { Some(m[a]@[l]) } else { None }
 }
 // the remote is missing the log or is behind
@@ -15,10 +17,39 @@ pub open spec fn need<A, L>(local: Map<A, BTreeMap<L, SeqNum>>, remote: Map<A, B
 }
 // the specification of the diff, straight from the property statement:
 // (remote height exclusive, or from the start; up to the local height inclusive) for needed logs, nothing otherwise
-pub open spec fn expected<A, L>(local: Map<A, BTreeMap<L, SeqNum>>, remote: Map<A, BTreeMap<L, SeqNum>>, a: A, l: L) -> Option<(Option<SeqNum>, Option<SeqNum>)> {
+pub open spec fn expected<A, L>(local: Map<A, BTreeMap<L, SeqNum>>, remote: Map<A, BTreeMap<L, SeqNum>>, a: A, l: L) -> Option<Rng> {
     if need(local, remote, a, l) { Some((hget(remote, a, l), hget(local, a, l))) } else { None }
 }
 // keys visited so far by an iteration over a map
 pub open spec fn visited<K, V>(h: Seq<(&K, &V)>, k: K) -> bool {
     exists|i: int| 0 <= i < h.len() && *(#[trigger] h[i]).0 == k
+}
+// h2 is h extended by the (new) key
+pub open spec fn next_key<K, V>(h: Seq<(&K, &V)>, h2: Seq<(&K, &V)>, key: K) -> bool {
+    &&& !visited(h, key)
+    &&& forall|k: K| #[trigger] visited(h2, k) <==> (visited(h, k) || k == key)
+}
+
+// ---- loop invariants (opaque in the function body; unfolded only inside the step lemmas) ----------
+#[verifier::opaque]
+pub open spec fn outer_inv<A, L>(local: Map<A, BTreeMap<L, SeqNum>>, remote: Map<A, BTreeMap<L, SeqNum>>, needs: Map<A, BTreeMap<L, Rng>>, h: Seq<(&A, &BTreeMap<L, SeqNum>)>) -> bool {
+    &&& forall|a: A, l: L| #[trigger] rget(needs, a, l) == (if visited(h, a) { expected(local, remote, a, l) } else { None })
+    &&& forall|a: A| #[trigger] needs.contains_key(a) ==> visited(h, a)
+}
+#[verifier::opaque]
+pub open spec fn inner_inv<A, L>(local: Map<A, BTreeMap<L, SeqNum>>, remote: Map<A, BTreeMap<L, SeqNum>>, needs: Map<A, BTreeMap<L, Rng>>, h: Seq<(&A, &BTreeMap<L, SeqNum>)>, key: A, g: Seq<(&L, &SeqNum)>) -> bool {
+    &&& forall|a: A, l: L| #[trigger] rget(needs, a, l) == (if a == key { if visited(g, l) { expected(local, remote, a, l) } else { None } } else if visited(h, a) { expected(local, remote, a, l) } else { None })
+    &&& forall|a: A| #[trigger] needs.contains_key(a) ==> visited(h, a) || a == key
+}
+// effect of `needs.entry(key).or_default().insert(l, v)`
+pub open spec fn upd<A, L>(old: Map<A, BTreeMap<L, Rng>>, new: Map<A, BTreeMap<L, Rng>>, key: A, l: L, v: Rng) -> bool {
+    &&& new.contains_key(key)
+    &&& new[key]@ == (if old.contains_key(key) { old[key]@ } else { Map::<L, Rng>::empty() }).insert(l, v)
+    &&& forall|a: A| a != key ==> (#[trigger] new.contains_key(a) == old.contains_key(a))
+    &&& forall|a: A| a != key && #[trigger] old.contains_key(a) ==> new[a] == old[a]
+}
+
+// every key of m has been visited, and only keys of m
+pub open spec fn covers<K, V>(h: Seq<(&K, &V)>, m: Map<K, V>) -> bool {
+    forall|k: K| visited(h, k) <==> #[trigger] m.contains_key(k)
 }
